@@ -12,13 +12,16 @@ TECHNIQUE = ("Coq proof (inductive invariant over the step relation of an execut
              "schedule, any power-of-two size) that a trace monitor stating the property never rejects; the model is tied "
              "to the real queue by running the unmodified fix8 source under a deterministic scheduler with a yield in "
              "front of every shared action and comparing complete action traces")
-LEVEL_TEXT = ("Theorem c30_all_schedules: for every k >= 1, programs and schedule, the trace of the model queue with 2^k "
-              "slots satisfies c30_ok (tickets unique and consecutive on both sides, the pop holding ticket k returns the "
-              "payload pushed under ticket k and only after that push returned, per-thread program order, empty only "
-              "when the next pop ticket's push has not returned).  c30_ticket_order / c30_exactly_once / "
-              "c30_empty_only_if restate the consequences on traces; c30_no_loss: in a quiescent state every completed, "
-              "unclaimed push sits in its slot and the next pop obtains ticket preadC.  The same c30_ok is applied to "
-              "the traces of the real code.")
+LEVEL_TEXT = ("Theorem c30_all_schedules: for every k >= 1, all programs, any number of threads and every schedule, the trace of "
+              "the model queue with 2^k slots is accepted by the monitor c30_ok. Consequences proved on traces: "
+              "c30_tickets_consecutive (tickets 0,1,2.. handed out once each on both sides), c30_ticket_order (the pop holding "
+              "ticket j returns the payload reserved under push ticket j, after that push returned), c30_reservation_order and "
+              "c30_program_order (per-producer order), c30_at_most_once (NoDup), c30_exactly_once (for any trace passing "
+              "c30_final_ok the returned pops are a permutation of the push reservations), c30_empty_only_if (empty at ticket j "
+              "only if j is the next pop ticket and push j has not returned), c30_no_loss (when no thread is between CAS and final "
+              "store every reserved push has returned and a pop run alone returns ticket preadC's payload), "
+              "c30_size_is_power_of_two, c30_exec (the compared experiment is an instance).  The same c30_ok / c30_final_ok are "
+              "applied to the traces of the real code.")
 LEVEL_NOTE = ("Trusted/modelled: sequential consistency instead of x86-TSO; atomicity of atomic_long_read/set and "
               "abstraction_cas; uSWSR_Ptr_Buffer as a FIFO list per slot (its one-pusher/one-popper precondition per slot is "
               "a proved invariant; the buffer itself is only compared with the list model sequentially); unsigned long "
@@ -30,8 +33,8 @@ TRUSTED_BASE = ["Coq 8.16.1 kernel (coqc), vm_compute only", "Extraction with Ex
                 "hand-written model coq/C30/Mpmc.v of include/fix8/ff/mpmc/MPMCqueues.hpp:uMPMC_Ptr_Queue::{init,push,pop}, "
                 "tied by differential execution of complete shared-action traces under identical schedules",
                 "harness/h_c30.cpp: function-like macros atomic_long_read/atomic_long_set/abstraction_cas/uSWSR_Ptr_Buffer "
-                "defined before including MPMCqueues.hpp put the yield points in; baton-passing scheduler; the free-running "
-                "stress oracle (bitmap, per-producer order, checksum) is C++ in the harness",
+                "defined before including MPMCqueues.hpp put the yield points in; coroutine (ucontext) scheduler; the free-running and backlog "
+                "summaries (bitmap, per-producer order, checksum) are computed by C++ in the harness and judged by free_ok/backlog_ok",
                 "ocaml/prelude.ml + ocaml/c30_driver.ml (token printing/parsing), vlib (generators, comparison)",
                 "memory model: interleaving (SC) semantics; x86-TSO store buffering is not modelled",
                 "uSWSR_Ptr_Buffer modelled as a FIFO list per slot (compared sequentially across its segment boundary only)"]
